@@ -36,10 +36,16 @@ inductive MatPath where
   | iter      -- flat iterator + `convToFloat64(t.Get(next))`
 deriving Repr, DecidableEq, Inhabited
 
+/-- `rawIsRowMajor` of `ToMat64`: the tensor is neither a view nor lazily transposed, is not column-major
+    and its storage window holds exactly r·c cells — the window read left to right is then the row-major
+    listing of the elements -/
+def rawIsRowMajor (t : Dense) (r c : Int) : Bool :=
+  !t.isMaterializable && !t.ap.o.col && (t.win.len : Int) == r * c
+
 /-- the `switch` of `ToMat64` -/
-def toMatPath (dt : String) (safe materializable : Bool) : MatPath :=
-  if dt == "f64" && safe && !materializable then .copyF64
-  else if !materializable then .bulk
+def toMatPath (dt : String) (safe rawRowMajor : Bool) : MatPath :=
+  if dt == "f64" && safe && rawRowMajor then .copyF64
+  else if rawRowMajor then .bulk
   else .iter
 
 structure MatOut where
@@ -50,8 +56,8 @@ structure MatOut where
   alias : Bool
 deriving Inhabited
 
-/-- `convToFloat64s(t)`: the arm of the element type over the raw storage window (storage order —
-    also for column-major tensors). Float64: the window itself is returned. -/
+/-- `convToFloat64s(t)`: the arm of the element type over the raw storage window (storage order).
+    Float64: the window itself is returned. -/
 def convToFloat64s (st : St) (t : Dense) : Res (List Val × Bool) :=
   if !convTypes.contains t.dt then throwPanic "Cannot convert *Dense to []float64"
   else do
@@ -78,7 +84,7 @@ def toMat64 (st : St) (t : Dense) (safe : Bool) : Res MatOut := do
   -- `t.IsNativelyAccessible()` holds for every engine modelled
   match t.shape with
   | [r, c] =>
-    match toMatPath t.dt safe t.isMaterializable with
+    match toMatPath t.dt safe (rawIsRowMajor t r c) with
     | .copyF64 =>
       let raw ← t.rawCells st
       let data ← newDense r c raw false
@@ -169,19 +175,11 @@ def nativeAccess (st : St) (t : Dense) (dims : Nat) (accDt : String) : Res (List
 
 /-! ### Known-defect regions -/
 
-/-- F90 (C17/C16): `ToMat64` takes a bulk path (raw copy / `convToFloat64s`) for every tensor that is
-    not materializable, and hands the raw storage window to `mat.NewDense` as a *row-major* matrix:
-    wrong whenever the window read left to right is not the row-major listing of the logical elements —
-    every column-major (non-view, not transposed) matrix with more than one row and column. -/
-def Excl_toMatRawOrder (t : Dense) : Bool :=
-  t.dims == 2 && !t.isMaterializable &&
-    (allCoords t.shape).map (fun c => (ltoi t.shape t.strides c).toOption) != (rangeI t.win.len).map some
-
 /-- F91 (C17): the complex arms of the bulk path (`convToFloat64s`) do not compute the real part
     (`convToFloat64`, the iterator path of the same function): any NaN component ↦ NaN, any infinite
     component ↦ +Inf. -/
 def Excl_toMatComplexBulk (t : Dense) : Bool :=
-  t.dims == 2 && !t.isMaterializable && (t.dt == "c64" || t.dt == "c128")
+  (match t.shape with | [r, c] => rawIsRowMajor t r c | _ => false) && (t.dt == "c64" || t.dt == "c128")
 
 /-- F92 (C17): the complex arms of `convFromFloat64s` map NaN to NaN+NaN·i and ±Inf to +Inf+Inf·i
     (value sets 1 and 5 contain non-finite matrix entries). -/
@@ -287,7 +285,7 @@ def excl (ps : PState) (toks : List String) : List String × Bool :=
   | "tomat" :: a :: _ =>
     match ps.obj a with
     | some (_, t) =>
-      ((if Excl_toMatRawOrder t then ["F90"] else []) ++ (if Excl_toMatComplexBulk t then ["F91"] else []), false)
+      ((if Excl_toMatComplexBulk t then ["F91"] else []), false)
     | none => ([], false)
   | "frommat" :: dt :: _ :: vs :: _ =>
     ((if Excl_fromMatComplexNonFinite dt vs then ["F92"] else []), false)
